@@ -36,7 +36,7 @@ ASSUMPTIONS = [
 ]
 WORKERS = 8
 THREADS = 2
-TIMEOUT = {"quick": 2400, "thorough": 7200}
+TIMEOUT = {"quick": 2400, "thorough": 10800}
 
 
 # ------------------------------------------------------------------ configurations
